@@ -2,10 +2,10 @@ from ..streams import aero as aero_streams, functionals
 from ..oracles import c06
 
 MODELS = ["Aero", "Functionals", "Constants", "Atmos", "AtmosTable"]
-STREAMS = [aero_streams.stream_eval_mtx, aero_streams.stream_geometry_and_flow, aero_streams.stream_system, aero_streams.stream_chain, functionals.stream_scalar_functionals]
+STREAMS = [aero_streams.stream_eval_mtx, aero_streams.stream_geometry_and_flow, aero_streams.stream_system, aero_streams.stream_chain, functionals.stream_scalar_functionals, functionals.stream_moment]
 ORACLES = [c06.oracle_laws]
 UNPROVED = ["the laws are proved per stage (kernel / ring / right-hand side / solution / local velocity / force / coefficient); their composition through the whole AeroPoint group is exercised by the law-level pairs of the oracle, not stated as one theorem",
-            "MAC and moment-coefficient invariance under length scaling is validated by the oracle only"]
+            "MAC and moment-coefficient invariance under length scaling: proved for the MomentCoefficient model given forces ~ c^2 (C06_moment_coefficient_invariant_under_length_scaling); the composition with the force stage is exercised by the oracle"]
 ASSUMPTIONS = [
     "length scaling holds under the explicit guard that no kernel denominator crosses the absolute tolerance 1e-10 at either scale (C06_absolute_tolerance_breaks_scaling shows the guard is needed); the oracle uses k in [1e-2, 1e2] on metre-sized wings",
     "translations in y are excluded when a symmetric surface is present",
